@@ -4,6 +4,7 @@ package goatlang
 
 import (
 	"fmt"
+	"io"
 	"io/fs"
 	"sort"
 )
@@ -72,7 +73,21 @@ func verifNoOptimize() bool { return VerifOptimizeOff }
 // attributed either to one of these stages (which must always terminate) or
 // to a script that is merely still running.
 func VerifStages(entry string, sys fs.FS, name, input string) (stage string, err error) {
+	return VerifStagesDump(entry, sys, name, input, false, false)
+}
+
+// VerifStagesDump is VerifStages plus the tree dump and code dump that the run
+// options WithTreeDump / WithCodeDump add to those stages (written to io.Discard).
+func VerifStagesDump(entry string, sys fs.FS, name, input string, tree, code bool) (stage string, err error) {
 	vm := New()
+	dump := func(pkgs []*token, codes []instruction) {
+		if tree && pkgs != nil {
+			vm.treeDump(io.Discard, pkgs)
+		}
+		if code && codes != nil {
+			vm.codeDump(io.Discard, codes)
+		}
+	}
 	switch entry {
 	case "eval":
 		tokens, err := tokenize(name, input)
@@ -87,9 +102,12 @@ func VerifStages(entry string, sys fs.FS, name, input string) (stage string, err
 		if err != nil {
 			return "loadImports", err
 		}
-		if _, _, err := compilePkgs(vm.globals, pkgs, true); err != nil {
+		dump(pkgs[len(pkgs)-1:], nil)
+		codes, _, err := compilePkgs(vm.globals, pkgs, true)
+		if err != nil {
 			return "compile", err
 		}
+		dump(nil, codes)
 		return "done", nil
 	case "load":
 		f := loadPackage
@@ -100,9 +118,12 @@ func VerifStages(entry string, sys fs.FS, name, input string) (stage string, err
 		if err != nil {
 			return "load", err
 		}
-		if _, _, err := compilePkgs(vm.globals, pkgs, true); err != nil {
+		dump(pkgs, nil)
+		codes, _, err := compilePkgs(vm.globals, pkgs, true)
+		if err != nil {
 			return "compile", err
 		}
+		dump(nil, codes)
 		return "done", nil
 	}
 	return "", fmt.Errorf("unknown entry %q", entry)
